@@ -34,8 +34,8 @@ def run(tier, seed):
                                                         durs=(0,), extras=("none", "free", "clr", "w1"), xkinds=("r", "w", "e"), script_until=3),
                  simulate=20 if q else 300),
         ],
-        "known": [dict(name="C19_known_conn", key="sock-cb-before-connected", simulate=60, take=6,
-                       consts=bc.consts("sock", {"write", "enable", "loop", "connect"}, 6, sizes=(1,), durs=(0,), drains=(0,),
+        "known": [dict(name="C19_known_conn", key="sock-cb-before-connected", take=6,
+                       consts=bc.consts("sock", {"write", "enable", "loop", "connect"}, 5, sizes=(1,), durs=(0,), drains=(0,),
                                         wms=((0, 0),), conn="ok", allow=("sock_cb_before_connected",)))],
         "monitor_by_kind": {k: bc.mon_c19(k) for k in ("pair", "filt", "sock")},
         "need": ["connect", "free", "clr", "cb:e:f128", "cb:e:f32", "cb:e:f17", "cb:r", "cb:w"],
